@@ -19,7 +19,7 @@ import (
 	"pgregory.net/rapid"
 )
 
-var hostileFragments = []string{"'", "''", `\`, `\'`, `"`, "--", "/*", "*/", ";", "$$", "$x$", ")", "(", "%", "_", "’", "🙂", " or '1'='1", "'; drop table logs; --", `"}') or true --`, "\n", "x", "a", ":", "::", "1", "é", "\\\\", "' || pg_sleep(1) || '", "]", `\"`}
+var hostileFragments = []string{"?", "?0", "?1", "??", "?ledger", "'", "''", `\`, `\'`, `"`, "--", "/*", "*/", ";", "$$", "$x$", ")", "(", "%", "_", "’", "🙂", " or '1'='1", "'; drop table logs; --", `"}') or true --`, "\n", "x", "a", ":", "::", "1", "é", "\\\\", "' || pg_sleep(1) || '", "]", `\"`}
 
 func hostileString(t *rapid.T, label string) string {
 	n := rapid.IntRange(1, 5).Draw(t, label+"N")
